@@ -68,7 +68,7 @@ def exact_dist(case, unit=False):
     return d
 
 
-def gen_case(rng):
+def gen_case(rng, scenario=None):
     n = rng.choice([1, 2, 3, 3, 4, 4, 5, 5, 6, 6, 7, 8, 9])
     shape = rng.choice(["random", "random", "forward", "ring"])
     costmode = rng.choice(["mixed", "mixed", "mixed", "unit", "zero", "zeroheavy"])
@@ -127,11 +127,27 @@ def gen_case(rng):
     else:
         h = ["inf" if x is None else x for x in d]
     case["heuristic"], case["h"] = hk, h
+    # multi-step scenarios: several from_mdp wrappers alive at once / a heuristic that itself runs a search
+    if scenario is None:
+        r = rng.random()
+        scenario = "two_wrappers" if r < .18 else "nested_h" if r < .34 else "plain"
+    case["scenario"] = scenario
+    qk = ["det", "det", "det", "uniform", "uniform", "uniform", "dict"]
+    if scenario != "plain" and case["repr"] == "next_state":
+        case["repr"] = rng.choice(qk) + "/" + rng.choice(qk)          # must go through from_mdp's wrapper
+    if scenario == "nested_h":
+        # relaxed problem: same transitions, each cost lowered (c' <= c): its exact cost-to-go is a consistent heuristic
+        case["relaxed_succ"] = [[[a, t, rng.choice([c // 2, c // 2, 0, c])] for a, t, c in row] for row in succ]
+        case["relaxed_repr"] = rng.choice(qk) + "/" + rng.choice(qk)
+        dr = exact_dist(dict(case, succ=case["relaxed_succ"]))
+        case["heuristic"], case["h"] = "nested", ["inf" if x is None else x for x in dr]
     case["tie"] = rng.choice(["lifo", "fifo", "random"])
     case["shuffle"] = rng.random() < .5
     case["seed"] = rng.randrange(10 ** 6) if (case["tie"] == "random" or case["shuffle"]) else None
     case["bfs_seed"] = rng.randrange(10 ** 6) if (case["shuffle"] or rng.random() < .3) else None
     assert consistent(case)
+    if scenario == "two_wrappers":
+        case["other"] = gen_case(rng, scenario="second_wrapper")
     return case
 
 
@@ -163,7 +179,7 @@ def features(case):
             "some_goal_unreachable": any(case["goal"][s] for s in range(case["n"])) and d[case["start"]] is None,
             "dead_state": any(x is None for x in d),
             "repr_" + case["repr"].replace("/", "_"): True, "h_" + case["heuristic"]: True,
-            "tie_" + case["tie"]: True, "shuffle": case["shuffle"]}
+            "tie_" + case["tie"]: True, "shuffle": case["shuffle"], "scenario_" + case.get("scenario", "plain"): True}
 
 
 # ---------------------------------------------------------------------------
@@ -264,13 +280,31 @@ def run(ctx):
     reported_once = set()
     n_dict_err = n_inf_assert = stale_from_mdp_model = 0
     distinct = set()
-    for i, (case, res) in enumerate(zip(cases, impl)):
+    # units to judge: (case as generated = replay unit, problem the result is about, its results)
+    units = []
+    for parent, res in zip(cases, impl):
+        if "error" in res:
+            ctx.violation("C05:impl-error:" + res["error"].split(":")[0], {"case": parent, "error": res["error"]}, found=False)
+            continue
+        units.append((parent, parent, res))
+        if parent.get("scenario") == "two_wrappers":
+            units.append((parent, parent["other"], res["other"]))
+    n_nested_h = 0
+    for i, (parent, case, res) in enumerate(units):
         for k, v in features(case).items():
             if v:
                 feats[k] = feats.get(k, 0) + 1
-        if "error" in res:
-            ctx.violation("C05:impl-error:" + res["error"].split(":")[0], {"case": case, "error": res["error"]}, found=False)
-            continue
+        if "h_seen" in res["astar"]:
+            # the nested searches' path values must be the exact relaxed costs-to-go (they are A* results themselves)
+            for st, v in res["astar"]["h_seen"].items():
+                n_nested_h += 1
+                want = case["h"][int(st)]
+                got = "inf" if v == "inf" else int_value(v)
+                if got != want:
+                    ctx.violation(sig_of("astar", "path is not of minimum cost"),
+                                  {"case": parent, "algorithm": "astar (nested heuristic search)", "state": int(st),
+                                   "failing_clause": {"clause": "nested search on the relaxed problem reports a path value that is not the least cost",
+                                                      "reported": v, "least": want}}, found=True)
         gt = graph_term(case)
         kinds = [] if case["repr"] == "next_state" else case["repr"].split("/")
         # the initial distribution is always read; a next-state distribution only if the start gets expanded
@@ -289,7 +323,7 @@ def run(ctx):
                     if "dict" not in reported_once:
                         reported_once.add("dict")
                         ctx.violation("C05:from_mdp:dict-distribution-support-not-indexable",
-                                      {"case": case, "algorithm": alg, "error": out["error"], "model_from_mdp_read": model_reads,
+                                      {"case": parent, "judged_problem": "second wrapper" if case is not parent else "main", "algorithm": alg, "error": out["error"], "model_from_mdp_read": model_reads,
                                        "clause": "a deterministic MDP given through a single-entry DictDistribution is not accepted: "
                                                  "from_mdp indexes `.support[0]` but DictDistribution.support is a dict keys view"},
                                       found=True)
@@ -301,18 +335,18 @@ def run(ctx):
                     if "inf" not in reported_once:
                         reported_once.add("inf")
                         ctx.violation("C05:astar:infinite-heuristic-stale-node-assertion",
-                                      {"case": case, "algorithm": alg, "error": out["error"],
+                                      {"case": parent, "judged_problem": "second wrapper" if case is not parent else "main", "algorithm": alg, "error": out["error"],
                                        "clause": "A* raises AssertionError instead of returning a plan / no plan when the (consistent, exact) "
                                                  "heuristic is +inf on states from which no absorbing state is reachable"},
                                       found=True)
                     continue
-                ctx.violation("C05:%s:raises:%s" % (alg, et), {"case": case, "algorithm": alg, "error": out["error"],
+                ctx.violation("C05:%s:raises:%s" % (alg, et), {"case": parent, "judged_problem": "second wrapper" if case is not parent else "main", "algorithm": alg, "error": out["error"],
                                                               "clause": "search raises on an input inside the property's quantifier"}, found=True)
                 continue
             if alg == "astar" and out["plan"] is not None:
                 out["plan"]["value_int"] = int_value(out["plan"]["value"])
                 if out["plan"]["value_int"] is None:
-                    ctx.violation(sig_of(alg, CLAUSES[3]), {"case": case, "algorithm": alg, "impl": out,
+                    ctx.violation(sig_of(alg, CLAUSES[3]), {"case": parent, "judged_problem": "second wrapper" if case is not parent else "main", "algorithm": alg, "impl": out,
                                                             "failing_clause": {"clause": CLAUSES[3], "reported": out["plan"]["value"]}}, found=True)
                     continue
             terms.append("%s %s %s" % ("chk_a" if alg == "astar" else "chk_b", gt, plan_term(out, alg == "astar")))
@@ -336,9 +370,9 @@ def run(ctx):
     nchk = nmir = drift = accepted = 0
     drift_samples = []
     for (kind, i, alg), v in zip(meta, vals):
-        case, out = cases[i], impl[i][alg]
+        parent, case, out = units[i][0], units[i][1], units[i][2][alg]
         if isinstance(v, vlib.CoqError):
-            ctx.violation("C05:coq-evaluation-failed", {"case": case, "algorithm": alg, "error": str(v)[:800]}, found=False)
+            ctx.violation("C05:coq-evaluation-failed", {"case": parent, "judged_problem": "second wrapper" if case is not parent else "main", "algorithm": alg, "error": str(v)[:800]}, found=False)
             continue
         if kind == "chk":
             nchk += 1
@@ -349,7 +383,7 @@ def run(ctx):
                 accepted += 1
                 continue
             why = failing_clause(case, out, alg)
-            detail = {"case": case, "algorithm": alg, "impl": out, "certificate_clauses": list(clauses)}
+            detail = {"case": parent, "judged_problem": "second wrapper" if case is not parent else "main", "algorithm": alg, "impl": out, "certificate_clauses": list(clauses)}
             if why:
                 detail["failing_clause"] = why
                 ctx.violation(sig_of(alg, why["clause"]), detail, found=True)
@@ -383,10 +417,12 @@ def run(ctx):
                 "possibly unreachable, possibly the start), heuristic in {zero, exact, floor(exact/2), exact with +inf on dead states} (dead states otherwise %d), "
                 "tie_breaking in {lifo,fifo,random}, seeds, randomize_action_order, MDP given as a DeterministicShortestPathProblem subclass (next_state) or a QuickMDP whose "
                 "initial/next-state distributions are DeterministicDistribution / single-entry DictDistribution / single-element UniformDistribution; every case is run "
-                "through AStarSearch and BreadthFirstSearch; distinct = structural hash of (graph, goals, start) over cases that reached the certificate; non-trivial = the start is not absorbing and has at least one action" % BIG,
+                "through AStarSearch and BreadthFirstSearch; scenarios: plain / two_wrappers (from_mdp wrappers of two different generated problems built first, then the older "
+                "one planned on, then the newer; both judged) / nested_h (heuristic_value computed lazily by a nested A* on a cost-relaxed copy given as a second non-DSP MDP); distinct = structural hash of (graph, goals, start) over cases that reached the certificate; non-trivial = the start is not absorbing and has at least one action" % BIG,
         "samples": [{"case": cases[0], "impl": impl[0]}] if cases else [],
         "certificate_checks": nchk, "certificate_accepts": accepted, "mirror_runs": nmir, "mirror_drift": drift,
         "mirror_drift_samples": drift_samples,
+        "nested_heuristic_values_checked": n_nested_h,
         "dict_distribution_runs_raising_TypeError": n_dict_err,
         "infinite_heuristic_runs_raising_AssertionError": n_inf_assert,
         "from_mdp_model": model_reads, "from_mdp_model_behind_code_runs": stale_from_mdp_model,
